@@ -729,7 +729,9 @@ func (r *c14Run) awaitPublication(h *c14Held, mayHold bool) string {
 	case <-time.After(10 * time.Second):
 		return "timeout"
 	}
-	r.loc.armHold(-1)
+	if r.parkedPub == nil {
+		r.loc.armHold(-1)
+	}
 	r.released = true
 	if h.expectCleanup {
 		deadline := time.Now().Add(5 * time.Second)
@@ -1011,11 +1013,11 @@ func (r *c14Run) step1(op string) string {
 		if !wasDumped {
 			return "nodump"
 		}
-		if r.parkedPub != nil {
-			return "busy"
-		}
 		hold := -1
 		if len(f) == 4 && f[2] == "hold" {
+			if r.parkedPub != nil {
+				return "busy"
+			}
 			hold, _ = strconv.Atoi(f[3])
 		} else if len(f) != 2 {
 			return "bad-op"
@@ -1041,7 +1043,9 @@ func (r *c14Run) step1(op string) string {
 			}
 		}
 		r.completed = append([]uint64{id}, kept...)
-		r.loc.armHold(hold)
+		if r.parkedPub == nil {
+			r.loc.armHold(hold)
+		}
 		close(c.rel)
 		return r.awaitPublication(h, hold >= 0)
 	case "resume":
@@ -1724,6 +1728,22 @@ func c14Fixed(tier string) []lib.Case {
 			"boot", "feed 11 24", "savepoint 6", "feed 12 5", "restart 3 wipe", "feed 13 20"}},
 		{Header: "M C14 mode=cluster n=3 kgc=16 splits=2 keys=6 rot=0", Tags: []string{"cluster", "cluster-rescale"}, Ops: []string{
 			"boot", "feed 21 24", "savepoint 7", "restart 1 keep", "feed 23 20"}},
+		// open finding (savepoint ids reused): savepoints 1 and 2 exist, the working storage is lost, the job is rolled back
+		// to savepoint 1 and asked for a savepoint: it gets id 2 again and replaces the earlier savepoint 2
+		{Header: "M C14 ops=1 mem=100000 cfg=local", Tags: []string{"rollback", "savepoint-id-reuse"}, Ops: []string{
+			"put 0 61 01", "sp", "opck 0", "srcack", "dump", "release 0", "put 0 61 02", "sp", "opck 0", "srcack", "dump", "release 0",
+			"wipe", "load 1", "open 0", "put 0 61 03", "sp", "opck 0", "srcack", "dump", "release 0", "wipe", "load 2", "open 0", "art"}},
+		// cluster mode with a timer-setting handler: timers pending at the savepoint fire exactly once after the restart
+		{Header: "M C14 mode=cluster n=2 kgc=8 splits=2 keys=4 rot=0 timers=1", Tags: []string{"cluster", "cluster-timers"}, Ops: []string{
+			"boot", "feed 1 20", "feed 2 9", "savepoint 5", "feed 3 7", "restart 2 wipe", "feed 4 18", "feed 5 30", "timersdue"}},
+		{Header: "M C14 mode=cluster n=2 kgc=8 splits=3 keys=5 rot=2 timers=1", Tags: []string{"cluster", "cluster-timers", "cluster-rescale"}, Ops: []string{
+			"boot", "feed 6 24", "savepoint 7 fold", "restart 3 wipe", "feed 8 20", "feed 9 30", "timersdue"}},
+		// D65 (open): the next checkpoint is published while the artifact of savepoint 1 is being copied; its cleanup removes
+		// job-1.snapshot, which the creation copies LAST: the requested savepoint never exists (and, NewStore dropping
+		// ErrChan, nobody is told)
+		{Header: "M C14 ops=1 mem=100000 cfg=mem", Tags: []string{"held-creation", "D65"}, Ops: []string{
+			"put 0 61 01", "sp", "opck 0", "srcack", "dump", "release 0 hold 1", "ckpt", "put 0 61 02", "opck 0", "srcack",
+			"dump", "release 0", "dump", "resume", "art"}},
 		// a savepoint request folds into the pending checkpoint
 		{Header: "M C14 ops=2 mem=250", Tags: []string{"fold"}, Ops: []string{
 			"put 0 61 01", "put 1 62 02", "ckpt", "opck 1", "sp", "sp", "ckpt", "put 0 61 03", "opck 0", "srcack",
